@@ -284,7 +284,7 @@ where
 impl<S> ObservableExt<Val, Val> for RelayGT<S> {}
 
 macro_rules! catalogue {
-  ($fname:ident, $obs:ty, $finalize:ident, $relay:ident) => {
+  ($fname:ident, $obs:ty, $finalize:ident, $relay:ident, $subj:ty, $flat_map:ident) => {
     pub fn $fname(op: Op, src: $obs, p: &P) -> $obs {
       let th = p.th.clone();
       let pk = p.pk;
@@ -347,13 +347,15 @@ macro_rules! catalogue {
           b
         }
         Op::Relay => $relay(src).box_it(),
+        Op::Status => observable::defer(move || src.clone().complete_status().0).box_it(),
+        Op::GroupFlat => observable::defer(move || src.clone().group_by::<_, Val, $subj>(|v: &Val| crate::model::key2(v)).$flat_map(|g| g)).box_it(),
       }
     }
   };
 }
 
-catalogue!(build, Obs, finalize, Relay);
-catalogue!(build_t, ObsT, finalize_threads, RelayT);
+catalogue!(build, Obs, finalize, Relay, Subject<'static, Val, Val>, flat_map);
+catalogue!(build_t, ObsT, finalize_threads, RelayT, SubjectThreads<Val, Val>, flat_map_threads);
 
 // ---------------------------------------------------------------- two-input combinators
 
